@@ -17,6 +17,7 @@ var Registry = map[string]func(tier string){
 	"C14": C14,
 	"C15": C15,
 	"C16": C16,
+	"C17": C17,
 	"C20": C20,
 }
 
